@@ -413,7 +413,7 @@ def judge(case, obs):
         hdr, d = ev[1], ev[2]
         cmd = d[1] if len(d) >= 2 else None
         maxlen = max(maxlen, len(d))
-        if len(d) > FRAME_MAX_DATA or not (0 <= hdr <= 0xFF):
+        if len(d) > FRAME_MAX_DATA:
             viol('frame:too_long:cmd_%s' % ('%02x' % cmd if cmd is not None else 'none'),
                  'uplink packet with %d data bytes after the header byte (max %d): %s' % (len(d), FRAME_MAX_DATA, d.hex()))
         if hdr != 0xFF or cmd not in (0x14, 0x18):
